@@ -14,7 +14,8 @@ Clauses(r) ==
   (IF ~BackupsKept(b, a, r.name) THEN {"backup-modified"} ELSE {})
   \cup (IF r.mode # "none" /\ NeedsBackup(b, r.name, r.mode) /\ ~OldSurvives(b, a, r.name) THEN {"version-lost"} ELSE {})
   \cup (IF r.kind = "step" /\ r.exit = 0 /\ a # CopyStep(b, r.name, r.mode, r.v) THEN {"listing"} ELSE {})
-SetToSeq(S) == CHOOSE f \in [1..Cardinality(S) -> S] : \A i, j \in 1..Cardinality(S) : i # j => f[i] # f[j]
+RECURSIVE SetToSeq(_)
+SetToSeq(S) == IF S = {} THEN <<>> ELSE LET x == CHOOSE x \in S : TRUE IN <<x>> \o SetToSeq(S \ {x})
 VARIABLE l
 Init == l = 1
 Step == l <= Len(Rec) /\ PrintT(<<"VERDICT", ToJson([id |-> Rec[l].id, viol |-> SetToSeq(Clauses(Rec[l]))])>>) /\ l' = l + 1
